@@ -189,9 +189,8 @@ def check_case(case):
             except Exception:
                 return None, "ko-infeasible"
             ref = {r.id: F(float(r2.fluxes[r.id])) for r in m.reactions}
-            refobj = F(float(r2.objective_value))
-        else:
-            refobj = F(float(refsol.objective_value))
+        # ROOM bounds the old objective by its value in the reference fluxes (a pFBA solution's own objective value is the total flux)
+        refobj = sum(F(spec["obj"].get(r, "0")) * ref[r] for r in ref)
         defaulted = given is None
         if method == "moma":
             cert = lpcert.certify([moma_lp(ko_spec, ref)])[0]
